@@ -315,7 +315,18 @@ class Evaluator:
 
     # ------------------------------------------------------------------ straight-line statements
     def run(self, body: list[ast.stmt], env: dict[str, Any] | None = None):
-        """Execute a whitelisted straight-line / if body; returns ('return', value) or ('fall', None)."""
+        """Execute a whitelisted straight-line / if body; returns ('return', value) or ('fall', None).
+
+        An operation of the interpreted fragment that fails on the checker's values the way it would fail on the real ones (None + 1, a missing key,
+        division by zero) is an outcome of the fragment, reported as ``Raised`` - not a failure of the fold."""
+        try:
+            return self._run(body, env)
+        except (Refused, Raised):
+            raise
+        except (TypeError, ValueError, KeyError, IndexError, ZeroDivisionError, OverflowError, AttributeError, StopIteration) as exc:
+            raise Raised(f"{type(exc).__name__}: {exc}") from exc
+
+    def _run(self, body: list[ast.stmt], env: dict[str, Any] | None = None):
         env = self.env if env is None else env
         for st in body:
             self._tick()
@@ -360,7 +371,7 @@ class Evaluator:
                 try:
                     r = self.run(st.body, env)
                 except Raised as exc:
-                    name = str(exc).split("(")[0].split(".")[-1]
+                    name = str(exc).split("(")[0].split(":")[0].split(".")[-1].strip()
                     r = self._handle(st, name, env, exc)
                 except (TypeError, ValueError, KeyError, IndexError, OverflowError, ZeroDivisionError, AttributeError, StopIteration) as exc:
                     # raised by a host / builtin operation on the checker's own values: catchable by the fragment exactly like the real exception
